@@ -545,6 +545,13 @@ def c204(ctx):
                 ctx.order_chain(R, f, [("ongoing.swap_remove(claim)", sr), ("apply_compaction_inner", inner)])
             for pt in sr:
                 g = K.guarded_by_call(f, pt, r"Arc.*::ptr_eq$", label="sw:1")
+                if g is None:
+                    # `list.iter().position(|c| Arc::ptr_eq(c, &claim))`: the index removed is the one the pointer-equality closure chose
+                    for s_ in P.origins(f, P.term_at(f, pt)["args"][1]):
+                        if s_["k"] == "call" and re.search(r"Iterator>?::position$", s_["callee"]):
+                            cl = [c for c in ctx.prog.closures_of(f) if P.call_points(c, r"Arc.*::ptr_eq$")]
+                            if cl and all(len(P.call_points(c, r"Arc.*::ptr_eq$")) >= 1 for c in cl):
+                                g = ("position", cl[0].key)
                 ctx.check(R, f, "removes-own", g is not None, "the removed claim is the one that is pointer-equal to the argument", "a claim other than the given one can be removed", pt=pt)
     pushers = set()
     for g in ctx.prog.fns.values():
